@@ -46,16 +46,18 @@ MARK = "MARKER"
 
 
 def _tg(times, name, lab_i, lab_p):
+    """the dictionary Textgrid.save hands to getTextgridAsStr, built by the real
+    _tgToDictionary from real tier objects"""
+    from praatio.data_classes.interval_tier import IntervalTier
+    from praatio.data_classes.point_tier import PointTier
+    from praatio.data_classes.textgrid import Textgrid, _tgToDictionary
+
     lo, hi, a, b, p = times
-    return {
-        "xmin": lo,
-        "xmax": hi,
-        "tiers": [
-            {"class": "IntervalTier", "name": name, "xmin": lo, "xmax": hi, "entries": (Interval(a, b, lab_i),)},
-            {"class": "TextTier", "name": "pts", "xmin": lo, "xmax": hi, "entries": (Point(p, lab_p),)},
-            {"class": "IntervalTier", "name": "none", "xmin": lo, "xmax": hi, "entries": ()},
-        ],
-    }
+    tg = Textgrid(lo, hi)
+    tg.addTier(IntervalTier(name, [Interval(a, b, lab_i)], lo, hi))
+    tg.addTier(PointTier("pts", [Point(p, lab_p)], lo, hi))
+    tg.addTier(IntervalTier("none", [], lo, hi))
+    return _tgToDictionary(tg)
 
 
 def _build(times, which, value):
@@ -357,7 +359,7 @@ def ob_partition_ieee(k, timeout):
     def body(lo, hi, *ts):
         ents = [(ts[2 * i], ts[2 * i + 1], LABELS[i]) for i in range(k)]
         tier = {"class": "IntervalTier", "name": "t", "xmin": lo, "xmax": hi, "entries": [Interval(*e) for e in ents]}
-        textgrid_io._fillInBlanks(tier, "", lo, hi)
+        textgrid_io._fillInBlanks(tier, "", lo, hi)  # as called by _prepTgForSaving after _sortEntries
         pos = lo
         for (s, e, l) in tier["entries"]:
             if s != pos or not s < e:
@@ -390,6 +392,13 @@ def obligations(tier):
     for f, w, ti, b in combos:
         obs.append(ob_uniform(f, w, ti, b, 3, T))
     obs.append(ob_string_lemma(ml, T))
+    # partition of the file's span under min/max overrides and sliver absorption (shared with C04)
+    from harness import C04
+
+    for k in ks:
+        o = C04.ob_override(k, "sym", T)
+        o.name = "partition-" + o.name
+        obs.append(o)
     obs.append(ob_formats_agree(300))
     obs.append(ob_json(ml, T))
     for k in ks:
